@@ -514,7 +514,7 @@ def block_adaptive(ctx, tm, psi):
              dict(kind="ps", solver="krylov"), dict(kind="ps2", solver="krylov"), dict(kind="cmf", solver="RK45")]
     # guess_dt: smaller than the target (sub-steps) / larger than the target (first attempt rejected)
     guesses = [float(T * rng.choice([0.28, 0.45, 3.0])) for _ in cands]
-    guesses[0] = 3.0 * T if rng.random() < 0.5 else guesses[0]
+    guesses[0] = 3.0 * T        # the Taylor scheme always meets a rejected first attempt (its sub-step variant runs in block_switch)
     # every run: one embedded pair whose first attempt (one step of the whole interval) must be rejected
     guesses[1 + int(rng.integers(0, 2))] = 3.0 * T
     if ctx.quick:
